@@ -34,8 +34,12 @@ use std::convert::{TryFrom, TryInto};
 //      - std: `i64::checked_neg`, `String` comparison operators, `bool` ordering operators, `Display for Value`.
 // =============================================================================================
 
-/// `easy_error::Error`.  Unit struct: the message/cause chain is abstracted away.
-pub struct Error {}
+/// `easy_error::Error`.  The message/cause chain is abstracted to ONE bit: was this error made by a failed
+/// `cast_value!` conversion (`TryFrom<Value>`: "unable to cast .. into ..") -- the run-time TYPE error that the checker
+/// is supposed to exclude -- or is it one of the dynamic errors (parse failure, division by zero, bad index, ...)?
+pub struct Error { pub type_mismatch: bool }
+/// "not a type error": Ok, or an error that no failed cast produced
+pub open spec fn no_type_err<T>(r: Result<T, Error>) -> bool { r is Err ==> !r->Err_0.type_mismatch }
 
 pub struct VfFmtArgs {}
 pub fn vf_fmt_args() -> (r: VfFmtArgs) { VfFmtArgs {} }
@@ -44,9 +48,11 @@ pub fn vf_fmt_args() -> (r: VfFmtArgs) { VfFmtArgs {} }
 pub fn vf_format() -> (r: String) { unimplemented!() }
 
 /// `easy_error::err_msg(..)`
-pub fn vf_err_msg(m: VfFmtArgs) -> (r: Error) { Error {} }
+pub fn vf_err_msg(m: VfFmtArgs) -> (r: Error) ensures !r.type_mismatch { Error { type_mismatch: false } }
+/// the same constructor inside the `impl TryFrom<Value> for T` bodies (rewritten there, see the unit files)
+pub fn vf_cast_err_msg(m: VfFmtArgs) -> (r: Error) ensures r.type_mismatch { Error { type_mismatch: true } }
 /// `easy_error::err_msg("literal")`
-pub fn err_msg(m: &str) -> (r: Error) { Error {} }
+pub fn err_msg(m: &str) -> (r: Error) ensures !r.type_mismatch { Error { type_mismatch: false } }
 
 /// `panic!(..)` as left by the expansion (`::std::rt::begin_panic(..)`): reaching it is a failed obligation.
 #[verifier::external_body]
@@ -59,14 +65,28 @@ pub trait ResultExt<T> {
     fn context(self, m: &str) -> (r: Result<T, Error>);
     fn context_s(self, m: String) -> (r: Result<T, Error>);
 }
-impl<T, E> ResultExt<T> for Result<T, E> {
+/// `context` on an error of a dependency (std parse error, regex error): the new easy_error is a dynamic error
+macro_rules! vf_context_dynamic { ($($e:ty),*) => { verus! { $(
+impl<T> ResultExt<T> for Result<T, $e> {
     #[verifier::external_body]
     fn context(self, m: &str) -> (r: Result<T, Error>)
-        ensures self is Ok ==> r == Ok::<T, Error>(self->Ok_0), self is Err ==> r is Err,
+        ensures self is Ok ==> r == Ok::<T, Error>(self->Ok_0), self is Err ==> (r is Err && !r->Err_0.type_mismatch),
     { unimplemented!() }
     #[verifier::external_body]
     fn context_s(self, m: String) -> (r: Result<T, Error>)
-        ensures self is Ok ==> r == Ok::<T, Error>(self->Ok_0), self is Err ==> r is Err,
+        ensures self is Ok ==> r == Ok::<T, Error>(self->Ok_0), self is Err ==> (r is Err && !r->Err_0.type_mismatch),
+    { unimplemented!() }
+} )* } } }
+vf_context_dynamic!(VfParseIntError, VfRegexError);
+/// `context` on an easy_error keeps what it was (the cause chain is the same error)
+impl<T> ResultExt<T> for Result<T, Error> {
+    #[verifier::external_body]
+    fn context(self, m: &str) -> (r: Result<T, Error>)
+        ensures self is Ok ==> r == Ok::<T, Error>(self->Ok_0), self is Err ==> (r is Err && r->Err_0.type_mismatch == self->Err_0.type_mismatch),
+    { unimplemented!() }
+    #[verifier::external_body]
+    fn context_s(self, m: String) -> (r: Result<T, Error>)
+        ensures self is Ok ==> r == Ok::<T, Error>(self->Ok_0), self is Err ==> (r is Err && r->Err_0.type_mismatch == self->Err_0.type_mismatch),
     { unimplemented!() }
 }
 
@@ -164,6 +184,29 @@ impl Value {
     pub fn vf_to_string(&self) -> (r: String) { unimplemented!() }
 }
 
+// ---- "accepted by the checker => no run-time TYPE error" (C08), per builtin:
+//   signature  Ok  ==>  the static type of every typed parameter is the declared scalar type or Any      (sig_arg)
+//   call: static type exactly the declared one, sub-evaluations free of type errors  ==>  no type error  (arg_is / no_type_err)
+// The two meet in the induction hypothesis of shims/milu.rs (a value has the static type of its expression).
+// Arguments whose static type is `Any` are outside the claim (nothing is known about their values).
+pub open spec fn rt(args: Seq<Value>, i: int, ctx: ScriptContextRef) -> Result<Type, Error> {
+    if 0 <= i < args.len() { real_type_spec(args[i], ctx) } else { Err(Error { type_mismatch: false }) }
+}
+pub open spec fn sig_arg(args: Seq<Value>, i: int, ctx: ScriptContextRef, want: Type) -> bool {
+    rt(args, i, ctx) is Ok && scalar_ok(rt(args, i, ctx)->Ok_0, want)
+}
+pub open spec fn arg_is(args: Seq<Value>, i: int, ctx: ScriptContextRef, want: Type) -> bool {
+    rt(args, i, ctx) is Ok && rt(args, i, ctx)->Ok_0 == want
+}
+/// loop invariant of every generated `signature`: the types collected so far are the static types of the arguments
+pub open spec fn targs_ok(targs: Seq<Type>, args: Seq<Value>, n: int, ctx: ScriptContextRef) -> bool {
+    targs.len() == n && forall|j: int| 0 <= j < n ==> real_type_spec(#[trigger] args[j], ctx) is Ok && real_type_spec(args[j], ctx)->Ok_0 == targs[j]
+}
+/// what the i-th argument evaluates to (a missing argument is a dynamic error)
+pub open spec fn arg_value(args: Seq<Value>, i: int, ctx: ScriptContextRef) -> Result<Value, Error> {
+    if 0 <= i < args.len() { real_value_spec(args[i], ctx) } else { Err(Error { type_mismatch: false }) }
+}
+
 /// `#[derive(Clone)]` on Value
 impl Clone for Value {
     #[verifier::external_body]
@@ -174,10 +217,17 @@ impl PartialEq for Value {
     #[verifier::external_body]
     fn eq(&self, other: &Value) -> (r: bool) { unimplemented!() }
 }
-/// hand-written `impl PartialEq for Type` (script.rs:31-47; `Any` equals everything): no postcondition
+/// hand-written `impl PartialEq for Type` (script.rs:31-47; `Any` equals everything).  Only the scalar rows of its
+/// match are stated (trusted, read off the source): against String / Integer / Boolean the answer is "same scalar or
+/// Any".  Nothing is said about Array / Tuple / NativeObject (recursion through Box / Vec / Arc `==`).
+pub open spec fn scalar_ok(t: Type, want: Type) -> bool { t is Any || t == want }
 impl PartialEq for Type {
     #[verifier::external_body]
-    fn eq(&self, other: &Type) -> (r: bool) { unimplemented!() }
+    fn eq(&self, other: &Type) -> (r: bool)
+        ensures
+            (*other is String || *other is Integer || *other is Boolean) ==> (r <==> scalar_ok(*self, *other)),
+            (*self is String || *self is Integer || *self is Boolean) ==> (r <==> scalar_ok(*other, *self)),
+    { unimplemented!() }
 }
 
 // ---------------------------------------------------------------------------------------------
@@ -188,25 +238,25 @@ impl PartialEq for Type {
 impl vstd::std_specs::convert::TryFromSpecImpl<Value> for i64 {
     open spec fn obeys_try_from_spec() -> bool { true }
     open spec fn try_from_spec(x: Value) -> Result<i64, Error> {
-        match x { Value::Integer(v) => Ok(v), _ => Err(Error {}) }
+        match x { Value::Integer(v) => Ok(v), _ => Err(Error { type_mismatch: true }) }
     }
 }
 impl vstd::std_specs::convert::TryFromSpecImpl<Value> for bool {
     open spec fn obeys_try_from_spec() -> bool { true }
     open spec fn try_from_spec(x: Value) -> Result<bool, Error> {
-        match x { Value::Boolean(v) => Ok(v), _ => Err(Error {}) }
+        match x { Value::Boolean(v) => Ok(v), _ => Err(Error { type_mismatch: true }) }
     }
 }
 impl vstd::std_specs::convert::TryFromSpecImpl<Value> for String {
     open spec fn obeys_try_from_spec() -> bool { true }
     open spec fn try_from_spec(x: Value) -> Result<String, Error> {
-        match x { Value::String(v) => Ok(v), _ => Err(Error {}) }
+        match x { Value::String(v) => Ok(v), _ => Err(Error { type_mismatch: true }) }
     }
 }
 impl vstd::std_specs::convert::TryFromSpecImpl<Value> for Arc<Vec<Value>> {
     open spec fn obeys_try_from_spec() -> bool { true }
     open spec fn try_from_spec(x: Value) -> Result<Arc<Vec<Value>>, Error> {
-        match x { Value::Array(v) => Ok(v), _ => Err(Error {}) }
+        match x { Value::Array(v) => Ok(v), _ => Err(Error { type_mismatch: true }) }
     }
 }
 impl vstd::std_specs::convert::FromSpecImpl<i64> for Value {
